@@ -1,3 +1,4 @@
+mod cmp;
 mod eval;
 mod findsem;
 mod fnmatch;
@@ -9,6 +10,7 @@ mod rec;
 mod report;
 mod rng;
 mod sexp;
+mod spec;
 mod sut;
 mod tv;
 
@@ -26,6 +28,10 @@ fn main() {
     }
     sut::install_hook();
     let cmd = args[1].as_str();
+    if cmd == "show" {
+        show(&args[2]);
+        return;
+    }
     let id = args[2].clone();
     let mut tier = "quick".to_string();
     let mut seed = 1u64;
@@ -57,7 +63,15 @@ fn main() {
     let mut rep = Report::new();
     let start = std::time::Instant::now();
     match id.as_str() {
+        "C01" => monitors::c01::run(&ctx, &mut rep),
         "C02" => monitors::c02::run(&ctx, &mut rep),
+        "C05" => monitors::c05::run(&ctx, &mut rep),
+        "C06" => monitors::c06::run(&ctx, &mut rep),
+        "C07" => monitors::c07::run(&ctx, &mut rep),
+        "C13" => monitors::c13::run(&ctx, &mut rep),
+        "C18" => monitors::c18::run(&ctx, &mut rep),
+        "C08" => monitors::c08::run(&ctx, &mut rep),
+        "C14" => monitors::c14::run(&ctx, &mut rep),
         _ => {
             eprintln!("unknown property {}", id);
             std::process::exit(2)
@@ -69,5 +83,25 @@ fn main() {
     match out {
         Some(p) => std::fs::write(&p, text).expect("write result"),
         None => println!("{}", text),
+    }
+}
+
+fn show(text: &str) {
+    println!("input: {:?}", text);
+    println!("spec: {:?}", spec::parse_detail(text));
+    match sut::parse_g(text) {
+        Err(p) => println!("parse PANIC: {}", p.0),
+        Ok(Err(e)) => println!("parse Err: {}", e),
+        Ok(Ok((o, e))) => {
+            println!("parse Ok: {:?} {}", o, format!("{:?}", e).split_whitespace().collect::<Vec<_>>().join(" "));
+            match sut::compile_g(&e, &o, "/dev/mdt0") {
+                Err(p) => println!("compile PANIC: {}", p.0),
+                Ok((Err(m), _, _)) => println!("compile Err: {}", m),
+                Ok((Ok(c), _, _)) => {
+                    println!("io_map: {}", sut::io_map_sorted(&c.io_map));
+                    println!("{}", c.text);
+                }
+            }
+        }
     }
 }
